@@ -215,6 +215,28 @@ fn custom_ids(cfg: &Cfg) {
             sys::close(efd);
         }
     }
+    // the reserved range is the device's ([0, num_queues]), not the worker's own ring count: on every
+    // worker of a split configuration each id up to num_queues must be refused
+    for (nq, masks) in [(3usize, vec![0b001u64, 0b110]), (3, vec![0b100, 0b011]), (4, vec![0b0001, 0b0010, 0b1100]), (2, vec![0b00, 0b11])] {
+        let bc = BCfg { num_queues: nq, masks: masks.clone(), ..BCfg::default() };
+        let s: Sess<VringMutex<dmn::Mem>> = Sess::new(bc);
+        let hs = s.daemon.get_epoll_handlers();
+        for (wi, h) in hs.iter().enumerate() {
+            for id in 0..=nq as u64 {
+                let efd = sys::eventfd(0, libc::EFD_NONBLOCK);
+                let r = h.register_listener(efd, EventSet::IN, id);
+                report::eval(1);
+                report::count("custom_ids.split_workers", 1);
+                report::distinct_str(&format!("customid-split:{nq}:{masks:x?}:{wi}:{id}"));
+                if r.is_ok() {
+                    let _ = h.unregister_listener(efd, EventSet::IN, id);
+                    report::violation("C17:custom-listener:reserved-id-accepted:split-worker", jo! {"num_queues" => nq, "masks" => format!("{masks:x?}"), "worker" => wi, "id" => id,
+                        "why" => "ids up to num_queues are reserved for queues and the exit event on every worker"}, cfg.replay("custom"));
+                }
+                sys::close(efd);
+            }
+        }
+    }
 }
 
 pub fn run(cfg: &Cfg) {
